@@ -110,12 +110,22 @@ func readCableLabsEbp(data []byte) (ebp *cableLabsEbp, err error) {
 		}
 	}
 
+	// the optional fields announced by the flags must be present; an EBP is at most
+	// 2+255 bytes long, so the uint8 index must not run past 255 either
+	need := func(n int) bool { return int(index)+n <= len(data) && int(index)+n <= 255 }
+
 	if ebp.ExtensionFlag() {
+		if !need(1) {
+			return nil, gots.ErrInvalidEBPLength
+		}
 		ebp.ExtensionFlags = data[index]
 		index += uint8(1)
 	}
 
 	if ebp.SapFlag() {
+		if !need(1) {
+			return nil, gots.ErrInvalidEBPLength
+		}
 		ebp.SapType = data[index]
 		index += uint8(1)
 	}
@@ -123,12 +133,18 @@ func readCableLabsEbp(data []byte) (ebp *cableLabsEbp, err error) {
 	if ebp.GroupingFlag() {
 		var group byte
 		var groupExtFlag bool
+		if !need(1) {
+			return nil, gots.ErrInvalidEBPLength
+		}
 		groupExtFlag = data[index]&0x80 != 0
 		group = data[index] & 0x7F
 		ebp.Grouping = append(ebp.Grouping, group)
 		index += uint8(1)
 
 		for groupExtFlag {
+			if !need(1) {
+				return nil, gots.ErrInvalidEBPLength
+			}
 			groupExtFlag = data[index]&0x80 != 0
 			group = data[index] & 0x7F
 			ebp.Grouping = append(ebp.Grouping, group)
@@ -137,6 +153,9 @@ func readCableLabsEbp(data []byte) (ebp *cableLabsEbp, err error) {
 	}
 
 	if ebp.TimeFlag() {
+		if !need(8) {
+			return nil, gots.ErrInvalidEBPLength
+		}
 		ebp.TimeSeconds = binary.BigEndian.Uint32(data[index : index+4])
 		index += uint8(4)
 
@@ -145,6 +164,9 @@ func readCableLabsEbp(data []byte) (ebp *cableLabsEbp, err error) {
 	}
 
 	if ebp.PartitionFlag() {
+		if !need(1) {
+			return nil, gots.ErrInvalidEBPLength
+		}
 		ebp.PartitionFlags = data[index]
 		index += uint8(1)
 	}
